@@ -228,6 +228,8 @@ def fsQuery (toks : List String) : String :=
     let cs := FS.crashContents d (FS.saveSteps (atomic == 1) target tmp blob) target
     let cls := (cs.map (fun x => classify old (some blob) x)).eraseDups
     "outcomes: " ++ " ".intercalate ((cls.toArray.qsort (· < ·)).toList)
+  | "load" :: _, [target] =>
+    "ops: " ++ "; ".intercalate ((FS.loadProgram target).map showFsOp)
   | "flush" :: _, atomic :: rest =>
     let rec items : List Nat → List FS.FlushItem
       | t :: tmp :: len :: more => ⟨t, tmp, List.range len⟩ :: items more
